@@ -373,16 +373,19 @@ Proof.
   rewrite Hd. destruct (String.eqb (fst d) f); cbn; rewrite IH; reflexivity.
 Qed.
 
-Lemma seq_key_ok f e :
-  String.eqb f "" = true \/ is_seq_node e = false -> exists k, seq_key f e = Ok k.
+Lemma scan_field_total f l acc : exists k, scan_field f l acc = Ok k.
 Proof.
-  intros [E|E].
-  - unfold seq_key. rewrite E. eauto.
-  - destruct (String.eqb f "") eqn:Ef; [unfold seq_key; rewrite Ef; eauto|].
-    destruct e as [h v|h kvs|h es|h v]; try discriminate.
-    + unfold seq_key. rewrite Ef. cbn. eauto.
-    + rewrite seq_key_map; eauto.
-    + unfold seq_key. rewrite Ef. cbn. eauto.
+  assert (G : forall n l acc, (List.length l <= n)%nat -> exists k, scan_field f l acc = Ok k).
+  { induction n as [|n IH]; intros l0 acc0 L.
+    - destruct l0; [cbn; eauto|cbn in L; lia].
+    - destruct l0 as [|k [|v r]]; cbn; eauto. apply IH. cbn in L. lia. }
+  eapply G; eauto.
+Qed.
+
+(* since /repo d64b8e2 the sort key of every element is defined *)
+Lemma seq_key_ok f e : exists k, seq_key f e = Ok k.
+Proof.
+  unfold seq_key. destruct (String.eqb f ""); [eauto|]. apply scan_field_total.
 Qed.
 
 (* ---------- keyed_ok / wf_keys: unfolding ---------- *)
@@ -449,34 +452,34 @@ Section Instances.
   Variable nonstr : string -> bool.
   Variables kind api : string.
 
-  (* ---------- never a panic when no sequence sits in a keyed whitelisted list ---------- *)
+  (* ---------- the formatter never panics (all nodes, any sort function) ---------- *)
   Theorem fmt_no_panic srt : forall n s p,
-    keyed_ok kind api p n = true -> exists n', fmt_node nonstr srt kind api s p n = Ok n'.
+    exists n', fmt_node nonstr srt kind api s p n = Ok n'.
   Proof.
-    induction n as [h v|h v|h kvs IH|h es IH] using cnode_ind'; intros s p Hok.
+    induction n as [h v|h v|h kvs IH|h es IH] using cnode_ind'; intros s p.
     - cbn. eauto.
     - cbn. eauto.
     - rewrite fmt_map_eq.
       assert (HD : exists D, fmt_pairs nonstr srt kind api s p kvs = Ok D).
-      { apply keyed_ok_map in Hok. induction kvs as [|kv t IHt]; cbn [fmt_pairs]; [eauto|].
-        inv IH. inv Hok. destruct H1 as [I1 I2]. destruct H3 as [O1 O2].
-        destruct (I1 SNil p O1) as [k' Hk]. rewrite Hk. cbn [bind].
-        destruct (I2 (sch_field s (cvalue (fst kv))) _ O2) as [v' Hv]. rewrite Hv. cbn [bind].
-        destruct (IHt H2 H4) as [D HD]. rewrite HD. cbn [bind]. eauto. }
+      { induction kvs as [|kv t IHt]; cbn [fmt_pairs]; [eauto|].
+        inversion IH as [|? ? [I1 I2] IH']; subst.
+        destruct (I1 SNil p) as [k' Hk]. rewrite Hk. cbn [bind].
+        destruct (I2 (sch_field s (cvalue (fst kv))) (p ++ "." ++ cvalue (fst kv))) as [v' Hv].
+        rewrite Hv. cbn [bind].
+        destruct (IHt IH') as [D HD]. rewrite HD. cbn [bind]. eauto. }
       destruct HD as [D HD]. rewrite HD. cbn [bind]. eauto.
     - rewrite fmt_seq_eq.
       assert (HE : exists E, fmt_elems nonstr srt kind api (sch_elems s) p es = Ok E).
-      { apply keyed_ok_seq in Hok. clear - IH Hok. induction es as [|e t IHt]; cbn [fmt_elems]; [eauto|].
-        inv IH. inv Hok. destruct (H1 (sch_elems s) p H3) as [e' He]. rewrite He. cbn [bind].
-        destruct (IHt H2 H4) as [E HE]. rewrite HE. cbn [bind]. eauto. }
+      { clear - IH. induction es as [|e t IHt]; cbn [fmt_elems]; [eauto|].
+        inversion IH as [|? ? I1 IH']; subst.
+        destruct (I1 (sch_elems s) p) as [e' He]. rewrite He. cbn [bind].
+        destruct (IHt IH') as [E HE]. rewrite HE. cbn [bind]. eauto. }
       destruct HE as [E HE]. rewrite HE. cbn [bind].
       destruct (sort_field kind api p) as [f|] eqn:SF; [|eauto].
       assert (HK : exists K, seq_keys f es = Ok K).
       { unfold seq_keys. destruct (2 <=? List.length es)%nat; [|eauto].
-        assert (HA : Forall (fun e => exists k, seq_key f e = Ok k) es).
-        { rewrite Forall_forall. intros e Hin. apply seq_key_ok. eapply keyed_ok_elems; eauto. }
-        clear - HA. induction HA as [|e t [k Hk] _ [K HK]]; cbn; [eauto|].
-        rewrite Hk. cbn [bind]. rewrite HK. cbn [bind]. eauto. }
+        clear. induction es as [|e t [K HK]]; cbn; [eauto|].
+        destruct (seq_key_ok f e) as [k Hk]. rewrite Hk. cbn [bind]. rewrite HK. cbn [bind]. eauto. }
       destruct HK as [K HK]. rewrite HK. cbn [bind]. eauto.
   Qed.
 
@@ -860,10 +863,12 @@ Proof.
   apply cnode_neq. vm_compute. reflexivity.
 Qed.
 
-Theorem fmt_no_panic_refuted : forall nonstr, exists n,
-  wf_keys n = true /\ filter_doc nonstr isort SNil n = Panic.
+(* regression for /repo d64b8e2: the document that used to panic (an odd-length sequence ending in the
+   sort field inside the keyed list) is formatted, and formatting is stable on it *)
+Example wit_panic_now_ok : forall nonstr, exists n1,
+  filter_doc nonstr isort SNil wit_panic = Ok n1 /\ filter_doc nonstr isort SNil n1 = Ok n1.
 Proof.
-  intros nonstr. exists wit_panic. split; vm_compute; reflexivity.
+  intros nonstr. eexists. split; vm_compute; reflexivity.
 Qed.
 
 (* with a sort that meets (S1) but is not stable, duplicate sort fields break idempotence *)
@@ -1046,7 +1051,7 @@ Proof.
     - destruct l0; [|cbn in L; lia]. inversion H; subst. reflexivity.
     - inversion H as [|k k' r r' Hk Hr]; subst; [reflexivity|].
       inversion Hr as [|v v' r2 r2' Hv Hr2]; subst; cbn.
-      + rewrite Hk. reflexivity.
+      + reflexivity.
       + rewrite Hk, Hv. apply IH; [cbn in L; lia|exact Hr2]. }
   intros H. eapply G; eauto.
 Qed.
